@@ -226,6 +226,62 @@ Definition started_ret (rs : list (option sresult)) : dur :=
 (* a server that Shutdown does not reach: nothing is closed, nothing is cut *)
 Definition untouched (d : dur) : fate := match d with Fin n => Done n | Inf => Never end.
 
+(* ---- histories: listeners are also opened and closed while fabio runs (main.go:431-483, the
+   tcp-dynamic watcher: proxy.ListenAndServeTCP for a new port, proxy.CloseProxy(port) for one
+   that lost its routes).  CloseProxy (proxy/serve.go:36-48) takes the registry lock, calls
+   srv.Close() on the entry (tcp.Server.Close: listeners and ALL connections closed at once),
+   deletes it, and releases the lock before returning: it never waits.  A CloseProxy that runs
+   after Shutdown has taken its snapshot finds an empty registry and does nothing. *)
+Inductive hop :=
+| HStart (a : addr) (s : server)   (* serve(): registered under the configured address, accepting *)
+| HClose (a : addr)                (* CloseProxy(a) before Shutdown began *)
+| HCloseDuring (a : addr).         (* CloseProxy(a) while Shutdown is running: no effect *)
+
+(* what happens first, later in the history, to the registry entry under [a]'s key:
+   Some true = closed by CloseProxy, Some false = overwritten by another start, None = nothing *)
+Fixpoint first_touch (kf : addr -> addr) (a : addr) (later : list hop) : option bool :=
+  match later with
+  | [] => None
+  | HStart a' _ :: r => if addr_eqb (kf a') (kf a) then Some false else first_touch kf a r
+  | HClose a' :: r => if addr_eqb (kf a') (kf a) then Some true else first_touch kf a r
+  | HCloseDuring _ :: r => first_touch kf a r
+  end.
+
+Inductive sfate :=
+| SReached (r : sresult)   (* in the registry when Shutdown begins *)
+| SLost                    (* overwritten in the registry: never shut down *)
+| SClosed.                 (* closed by CloseProxy before Shutdown began: listener and connections gone *)
+
+(* per started server, in start order *)
+Fixpoint run_history (gp : list step) (kf : addr -> addr) (wait : N) (h : list hop) : list sfate :=
+  match h with
+  | [] => []
+  | HStart a s :: r =>
+      match first_touch kf a r with
+      | None => SReached (run_server gp wait s)
+      | Some true => SClosed
+      | Some false => SLost
+      end :: run_history gp kf wait r
+  | _ :: r => run_history gp kf wait r
+  end.
+
+Definition history_servers (h : list hop) : list server :=
+  flat_map (fun o => match o with HStart _ s => [s] | _ => [] end) h.
+Definition history_addrs (h : list hop) : list addr :=
+  flat_map (fun o => match o with HStart a _ => [a] | _ => [] end) h.
+
+Definition sfate_accepts (f : sfate) (t : N) : bool :=
+  match f with SReached r => server_accepts r t | SLost => true | SClosed => false end.
+Definition history_ret (fs : list sfate) : dur :=
+  dmax_list (map (fun f => match f with SReached r => s_ret r | _ => Fin 0 end) fs).
+
+(* a variant that is NOT the code: CloseProxy drains the closed server for up to [wait] while
+   holding the registry lock; a Shutdown that begins [delay] before that lock is released
+   starts its work only then *)
+Definition lock_held_accepts (delay : N) (r : sresult) (t : N) : bool := (t <? delay) || server_accepts r t.
+Definition lock_held_ret (delay : N) (r : sresult) : dur :=
+  match s_ret r with Fin x => Fin (delay + x) | Inf => Inf end.
+
 (* ---- a sequential variant, for comparison only (the mutant "wait per server in turn") ---- *)
 Fixpoint dsum (l : list dur) : dur :=
   match l with
